@@ -1,3 +1,4 @@
+import math
 import flowpaths.utils.solverwrapper as sw
 import flowpaths.utils as utils
 import time
@@ -113,7 +114,8 @@ class MinGenSet():
             if not all(isinstance(constraint, list) for constraint in self.partition_constraints):
                 utils.logger.error(f"{__name__}: partition_constraints must be a list of lists.")
                 raise ValueError("partition_constraints must be a list of lists.")        
-            if not all(sum(constraint) == self.total for constraint in self.partition_constraints):
+            # (float sums depend on the order of the summands: compare with a tolerance unless everything is an int)
+            if not all((sum(constraint) == self.total) if (self.weight_type == int) else math.isclose(sum(constraint), self.total, rel_tol=1e-9, abs_tol=1e-9) for constraint in self.partition_constraints):
                 utils.logger.error(f"{__name__}: The sum of the numbers inside each subset constraint must equal the total value.")
                 raise ValueError("The sum of the numbers inside each subset constraint must equal the total value.")
 
@@ -333,7 +335,8 @@ class MinGenSet():
             if self.solver.get_model_status() == "kOptimal":
                 genset_sol = self.solver.get_values(self.genset_vars)
                 # Solver values of integer variables may be off by a tolerance (e.g. 6.9999999): round, do not truncate
-                self._solution = sorted((round(genset_sol[i]) if self.weight_type == int else float(genset_sol[i])) for i in range(k))
+                # (and a continuous variable with lower bound 0 may come back as -4.4e-16)
+                self._solution = sorted((round(genset_sol[i]) if self.weight_type == int else max(0.0, float(genset_sol[i]))) for i in range(k))
                 self._is_solved = True
                 self.solve_statistics = {
                     "solve_time": time.perf_counter() - start_time,
